@@ -18,8 +18,13 @@
 (*             calculate returned, milli-units), qual (per agent, per        *)
 (*             component: a qualifying event occurred this step), lar (per   *)
 (*             agent: calculate was given that agent's own latest history    *)
-(*             item), cur, tot (milli-units, read from the objects after the *)
-(*             step), envr (reward returned by env.step, milli-units)]       *)
+(*             item of the step just taken), post (per agent: calculate was  *)
+(*             given a state taken from the simulation after this step's     *)
+(*             tick), once (per agent: each of its components was evaluated  *)
+(*             exactly once in this step - binding: otherwise the recorder   *)
+(*             cannot attribute values), cur, tot (milli-units, read from    *)
+(*             the objects after the step), envr (reward returned by         *)
+(*             env.step, milli-units)]                                       *)
 (*   every event carries all fields (unused ones <<>> / 0 / FALSE).          *)
 (* Floats are compared in integer milli-units with a slack of one unit per   *)
 (* term (DESIGN.md 5.1).                                                     *)
@@ -73,7 +78,9 @@ Clauses(e) ==
           e.ev = "Step" =>
               \A a \in Agents : \A k \in StickyIdx(Cfg, a) :
                   ~Comps(Cfg, a)[k].sticky => StickyOK(FALSE, e.qual[a][k], 0, e.vals[a][k]),
+      EachComponentEvaluatedOnce |-> e.ev = "Step" => \A a \in Agents : e.once[a],
       OwnLatestAction |-> e.ev = "Step" => \A a \in Agents : e.lar[a],
+      PostStepState |-> e.ev = "Step" => \A a \in Agents : e.post[a],
       EnvRewardIsAgentReward |-> (e.ev = "Step" /\ Cfg.proxy # 0) => e.envr = e.cur[Cfg.proxy]
     ]
 Failing(e) == {c \in DOMAIN Clauses(e) : ~Clauses(e)[c]}
